@@ -4,6 +4,7 @@ import Mathlib.Algebra.BigOperators.Group.Finset.Basic
 import Mathlib.Tactic.Ring
 import Mathlib.Tactic.FieldSimp
 import Mathlib.Tactic.Linarith
+import Mathlib.Tactic.IntervalCases
 
 namespace ThermoVerif.Unifac
 open Transc Filter Topology
@@ -824,4 +825,57 @@ theorem gammaSubS_tendsto (kind : Kind) (inter : Nat → Nat → Nat → ℝ) (T
   rwa [gammaSubS_vertex index wf kind inter T hi] at this
 
 end limit
+
+/-! ### Facts that hold by construction of the model
+
+The model defines the ideal models as the constant one and its wrappers allocate their result with one entry
+per entry of `x`; the statements below unfold those definitions.  On the real code the corresponding clauses
+("the ideal fugacity and Poynting models return one", result shape) are decided by the correspondence lines
+and the oracle on the real objects, not by these lemmas. -/
+
+section definitional
+variable {α : Type} [Zero α] [One α] [Add α] [Sub α] [Mul α] [Div α] [Neg α] [Transc α]
+
+/-- the result has one entry per entry of `x` -/
+theorem result_size (kind : Kind) (tb : Tables α) (inter : Nat → Nat → Nat → α) (x : Array α) (T : α) :
+    (gammaF kind tb inter x T).gamma.size = x.size := size_gammaF kind tb inter x T
+
+/-- **ideal_one.**  The `f` every `@ideal` class gets, `IdealActivityCoefficients.__call__`,
+`IdealFugacityCoefficients.__call__` and `MockPoyintingCorrectionFactors.__call__` return one(s),
+whatever the arguments. -/
+theorem ideal_one (z : Option (Array α)) (T P : Option α) (xs : Array α) (T' P' : α) :
+    idealF z T P = 1
+    ∧ (idealGammaCall xs T').size = xs.size ∧ (∀ j, j < xs.size → vget (idealGammaCall xs T') j = 1)
+    ∧ idealPhiCall xs T' P' = 1 ∧ mockPcfCall T' P' = (1 : α) :=
+  ⟨rfl, by simp [idealGammaCall], fun j hj => by simp [idealGammaCall, vget_tabA _ hj], rfl, rfl⟩
+
+/-- `IdealActivityCoefficients(...)(x, T)` allocates its result and writes nothing. -/
+theorem ideal_call_pure (w : World α) (arg : Arg α) (T : α) :
+    (∀ id, id < w.heap.size → (w.callIdeal arg T).1.read id = w.read id)
+    ∧ (w.callIdeal arg T).2 = w.heap.size := by
+  cases arg <;> exact ⟨fun id h => by simp only [World.callIdeal, World.alloc, World.read]; exact read_push_lt' _ _ h, rfl⟩
+
+end definitional
+
+/-! ### example data for the non-vacuity examples of Props/C16.lean -/
+
+/-- two chemicals, two subgroups: chemical 0 = {g0}, chemical 1 = {g0, 2 g1} -/
+def cgEx : Nat → Nat → ℝ := fun i k => if i = 0 then (if k = 0 then 1 else 0) else (if k = 0 then 1 else 2)
+def QsEx : Nat → ℝ := fun k => if k = 0 then 1 else 2
+def RsEx : Nat → ℝ := fun _ => 1
+
+theorem wfEx : WF 2 2 cgEx QsEx RsEx := by
+  refine ⟨?_, ?_, ?_, ?_⟩
+  · intro i k _ _; unfold cgEx; split_ifs <;> norm_num
+  · intro k _; unfold QsEx; split_ifs <;> norm_num
+  · intro i hi; interval_cases i <;> norm_num [sumN, cgEx, QsEx]
+  · intro i hi; interval_cases i <;> norm_num [sumN, cgEx, RsEx]
+
+theorem swap01_range (i : ℕ) : (Equiv.swap 0 1 : Equiv.Perm ℕ) i < 2 ↔ i < 2 := by
+  rcases i with _ | _ | i
+  · simp
+  · simp
+  · rw [Equiv.swap_apply_of_ne_of_ne (by omega) (by omega)]
+
+
 end ThermoVerif.Unifac
